@@ -247,7 +247,7 @@ class C08(Prop):
         if a1.get("a") == out:
             return
         before = len(g._sink)
-        h = g._emit_op(op, [a0, a1], spell="f", out_arr=out)
+        h = g._emit_op(op, [a0, a1], spell="f", out_arr=out, **({"out_tuple": True} if g.coin(0.2) else {}))
         if h is None:
             return
         res = g.t[h].val
